@@ -118,6 +118,11 @@ func c06bSetup(t *testing.T, run *vlib.Run, c *c06Case) *c06bEnv {
 		if int(p.midDoc.Load()) != e.docIndex(op.Key) {
 			return nil
 		}
+		if op.Deleted && p.midDelete.Load() {
+			// a local delete inside the window of a replicated tombstone write makes rosmar answer "deleteBody=true on a
+			// tombstone" instead of a CAS mismatch (an artefact of the test store): stay armed for the next write
+			return nil
+		}
 		if !p.midArmed.CompareAndSwap(true, false) {
 			return nil
 		}
@@ -397,6 +402,7 @@ func (e *c06bEnv) runCase() {
 				e.write(p, doc, st.Kind, " [inside the compute->CAS window of a pushed revision]")
 			}
 			p.midDoc.Store(int32(s.Doc))
+			p.midDelete.Store(s.Kind == "delete")
 			p.midFn.Store(&fn)
 			p.midArmed.Store(true)
 			e.tr("step %d: armed: next pushed write of %s gets a server-side %s in its compute->CAS window", i, e.docIDs[s.Doc], s.Kind)
@@ -534,7 +540,8 @@ func TestVerif_C06_Blip(t *testing.T) {
 				t.Run(fmt.Sprintf("%d-%s", c.Index, proto), func(t *testing.T) {
 					t.Parallel()
 					sem <- struct{}{}
-					defer func() { <-sem }()
+					// registered first = runs last: the slot is free only after the case's buckets went back to the pool
+					t.Cleanup(func() { <-sem })
 					e := c06bSetup(t, run, c)
 					run.Eval()
 					run.Count("cases_"+proto, 1)
